@@ -13,6 +13,7 @@ FormulaRtFails(ev) ==
     LET c == Comp(ev.comp) IN
     IF ev.out # "ret" THEN {"raised_" \o ev.out}
     ELSE (IF Comp(ev.parsed) # c THEN {"round_trip_changed_the_composition"} ELSE {})
+         \cup (IF \E q \in 1..Len(ev.parsed) : ev.parsed[q][2] = 0 THEN {"round_trip_kept_a_zero_count_element"} ELSE {})
          \cup (IF ev.sep = "" /\ (~ParseFormula(ev.text)[1] \/ ParseFormula(ev.text)[2] # c)
                THEN {"written_text_does_not_denote_the_composition"} ELSE {})
          \cup (IF ev.massOk /\ ~FWithin(ev.massText, ev.massComp, Nano(20)) THEN {"mass_of_string_differs_from_mass_of_composition"} ELSE {})
